@@ -135,6 +135,12 @@ class EN(object):
         g = _SQRTPI2 * math.exp(-self.v * self.v)
         return EN(v, _m(g, self.e) + abs(v), _m(g, self.u))
 
+    def erfc(self):
+        # the C library's erfc (what exprtk calls): accurate in the tail, where 1 - erf(x) has cancelled to 0
+        v = math.erfc(self.v)
+        g = _SQRTPI2 * math.exp(-self.v * self.v)
+        return EN(v, _m(g, self.e) + abs(v), _m(g, self.u))
+
     def tanh(self):
         v = math.tanh(self.v)
         return EN(v, _m(1 - v * v, self.e) + abs(v), _m(1 - v * v, self.u))
@@ -335,6 +341,10 @@ class Jet(object):
     def erf(self):
         g = (-(self * self)).exp() * _SQRTPI2
         return self._compose(self.c[0].erf(), g)
+
+    def erfc(self):
+        g = (-(self * self)).exp() * (-_SQRTPI2)
+        return self._compose(self.c[0].erfc(), g)
 
     def tanh(self):
         # T' = (1 - T^2) a' solved coefficient by coefficient (no exp: stays finite when tanh saturates)
